@@ -295,10 +295,22 @@ fn corpus() -> Vec<(ASchema, ADoc, Opts, &'static str)> {
             sels: vec![fld("unit", vec![]), fld("units", vec![]), fld("when", vec![])] }],
         frags: vec![],
     };
+    // default values of variables: every literal kind
+    let dflt_doc = |vars: Vec<(&str, ATy, &str)>| ADoc {
+        ops: vec![AOp { kind: "query", name: "Defaults".into(), vars: vars.into_iter().map(|(n, t, d)| AVar { name: n.into(), ty: t, default: Some(d.into()) }).collect(), sels: vec![fld("unit", vec![])] }],
+        frags: vec![],
+    };
     let both = |r: &str, v: &str, rust: bool| Opts { response_derives: Some(r.into()), variables_derives: Some(v.into()), normalization_rust: rust, ..Opts::default() };
     // every fragment-recursion pattern of C12 must compile too (Box on every by-value cycle)
     let mut fixed: Vec<(ASchema, ADoc, Opts, &'static str)> = super::c12::fragment_cases().into_iter().map(|g| (g.schema, g.doc, Opts::default(), "")).collect();
     fixed.extend(vec![
+        (enum_schema.clone(), dflt_doc(vec![("i", ATy::named("Int"), "42"), ("s", ATy::named("String"), "\"he said \\\"hi\\\"\""), ("b", ATy::named("Boolean"), "false"), ("f", ATy::named("Float"), "1.5"), ("id", ATy::named("ID"), "\"abc\"")]), Opts::default(), ""),
+        (enum_schema.clone(), dflt_doc(vec![("u", ATy::named("Unit"), "METER")]), Opts::default(), ""),
+        (enum_schema.clone(), dflt_doc(vec![("l", ATy::List(Box::new(ATy::NonNull(Box::new(ATy::named("Int"))))), "[1, 2]")]), Opts::default(), ""),
+        (enum_schema.clone(), dflt_doc(vec![("l", ATy::List(Box::new(ATy::named("Int"))), "[1, 2]")]), Opts::default(), ""),
+        (enum_schema.clone(), dflt_doc(vec![("f", ATy::named("Float"), "1")]), Opts::default(), ""),
+        (enum_schema.clone(), dflt_doc(vec![("o", ATy::named("Filter"), "{ since: \"2020\" }")]), Opts::default(), ""),
+        (enum_schema.clone(), dflt_doc(vec![("o", ATy::named("Filter"), "{ nested: { since: \"x\" } }")]), Opts::default(), ""),
         (enum_schema.clone(), enum_doc.clone(), both("Debug, Clone", "Debug, Clone", false), ""),
         (enum_schema.clone(), enum_doc.clone(), both("Debug,PartialEq,Clone", "Clone,Debug", true), ""),
         (enum_schema.clone(), enum_doc.clone(), both("Serialize,Debug", "Deserialize,Debug", false), ""),
